@@ -66,10 +66,17 @@ CLAIMS = {
              ref="8 C13"),
  "C09": dict(text="Proved kernel-only: the CRC-32 bit step is a bijection, hence any one-byte substitution anywhere in a record's "
              "tag+body changes its CRC-32, the mutated frame is not the encoding of any record and no decode consumes exactly "
-             "that frame; altered checksum bytes likewise. Correspondence and oracle: every byte position of complete records "
+             "that frame; altered checksum bytes likewise. System level (Props/C09Sys), for every clean system reached by histories, "
+             "clean restarts and crash recoveries (ReachLIFT) and every reopening cfg: with a middle chunk file removed, open returns the "
+             "gap error and only syncs the chunks before the gap (c09_sys_missing_middle_chunk[_reach]); with ONE value byte (any byte of "
+             "a log id, vote, payload, user data or checksum: the decidable mask ValuePos; layout bytes = tags, Option tags, length prefixes "
+             "are the recorded classes D5/D6) of ANY complete record in ANY chunk replaced, the decoder reads the same extent and reports "
+             "a checksum mismatch, the damaged frame is never an all-zero tail, and open returns InvalidData for both truncate settings, "
+             "leaving every file's bytes as they were (c09_value_byte_decode_invalid, c09_chunk_value_byte_invalid, "
+             "c09_sys_value_byte_altered[_reach]). Correspondence and oracle: every byte position of complete records "
              "x bit flips on quiescent images and on a live store (read path), missing middle chunk; silent absorption outside "
              "the two recorded finding classes is a violation.",
-             technique="Lean 4 theorems (CRC-32 injectivity, frame rejection) + corruption sweep with model correspondence",
+             technique="Lean 4 theorems (CRC-32 injectivity, frame rejection, lifted to open() of every reachable directory) + corruption sweep with model correspondence",
              ref="8 C09"),
  "C04": dict(text="Proved on the worker machine for every outcome sequence: a positive callback is emitted only from the sync of the "
              "last remaining file with every older file already synced (c04_ack_only_from_syncNew, c04_ack_means_synced: at "
@@ -80,7 +87,13 @@ CLAIMS = {
              "every legal history with any worker outcomes, a positive callback of a flush implies that at the end of the history every "
              "live chunk file is written and durable up to the journal end of that flush; the same from every system reached by any mixture of "
              "histories, clean restarts and crash recoveries (Props/LiftRestart: c04_positive_callback_means_durable_reach; the restart "
-             "lemma needed `open` to sync the files it keeps - defect D15, fixed in 40ee787). Implementation-side oracle on the interposed "
+             "lemma needed `open` to sync the files it keeps - defect D15, fixed in 40ee787). Callback accounting for EVERY history "
+             "(Props/C04Order: any steps incl. drops, reopenings with any cfg, dying workers, no legality hypothesis): the callbacks still "
+             "queued are exactly the last requests in order and the resolved ones (invoked or dropped) are a permutation of the earlier ones "
+             "(c04_sys_callback_accounting_partial; exact list equality when no step kills the worker - a dying worker's dropped callbacks are "
+             "reported sorted by id, c04OrderCounterexample), so with distinct ids none is resolved twice (c04_sys_at_most_once), invoked "
+             "callbacks come in request order (c04_sys_request_order_partial), and a history without a failing system call that ends in "
+             "workerIdle or drop invokes every requested callback exactly once, positively (c04_sys_exactly_once_no_fault). Implementation-side oracle on the interposed "
              "trace (per-file written/synced counters) under injected EIO / short writes at every call.",
              technique="Lean 4 invariants over the worker small-step machine + trace oracle under fault injection + correspondence",
              ref="8 C04"),
